@@ -15,15 +15,30 @@
 //   - up to 8 classes
 //   - shape 3: a call tree of exactly K expandable methods (K = 5..9, the budget is 7)
 //   - overloads (two functions of one name in a class) when asked for (C04 only)
+//
+// Shapes added by the audit of input dimensions (each behind its own draw, 0 = absent):
+//   - no class at all
+//   - callees whose receiver is an expression text as the Java front end records it for a call on a
+//     string literal ("a -> b".length()): blanks, the edge operator, ';', braces, DOT keywords inside
+//     a quoted name; call arguments with such texts
+//   - non-ASCII names, names differing only in case, '_' names, names equal to DOT keywords, long
+//     names (300 and 5000 bytes), one callee of 70000 bytes (a deps.json line above 64 KiB)
+//   - a class whose name is a prefix of another class's name in the same package (C0 / C00 / C0$1)
+//   - extends / implements between model classes (data the call relation does not depend on)
+//   - an empty receiver with a package (skipped like the plain empty receiver)
+//   - one method with 10-65 calls; shape 3 as a chain (depth = number of expandable methods) and
+//     with 12-24 expandable methods
 package c03
 
 import (
 	"fmt"
+	"strings"
 
 	"github.com/modernizing/coca/pkg/domain/core_domain"
 	"pgregory.net/rapid"
 
 	"verif/internal/mgen"
+	"verif/internal/pbt"
 )
 
 type wOpts struct {
@@ -41,7 +56,35 @@ var wAltMethodNames = []string{"m0", "m00", "xm0", "m1", "m01", "run", "getM", "
 var wClassTypes = []string{"", "Interface", "CreatorClass", "InnerStructures"}
 var wCallTypes = []string{"", "lambda", "CreatorClass", "field"}
 
+// receiver texts of calls on string literals; the plainest first (no dot, no backslash inside)
+// (the first wPlainLiterals hold no " -> ")
+var wLiteralReceivers = []string{`"a b"`, `"x; y"`, `"}"`, `"digraph G {"`, `"->"`, `"a -> b"`, `" -> "`, `("a -> b"+"c -> d")`}
+
+const wPlainLiterals = 5
+
+// generator feature a known (unrepaired) finding can be tied to in known_findings.json
+const arrowFeature = "edge-operator-in-name"
+
+var wNonASCIIMethods = []string{"m\u00e90", "\u65b9\u6cd5", "\u00f1", "\u03a91", "m0\u0301"}
+var wOddMethods = []string{"M0", "M1", "m_0", "_", "node", "edge", "graph", "digraph", "strict", "subgraph", "G", "M00"}
+
+// wLiteralCall is a call on a string literal in a method of package pkg: the front end keeps the
+// expression text as receiver name and the caller's package.
+func wLiteralCall(t *rapid.T, pkg string) mgen.Call {
+	pool := wLiteralReceivers
+	if pbt.Excluded(arrowFeature) {
+		pool = wLiteralReceivers[:wPlainLiterals]
+	}
+	return mgen.Call{Pkg: pkg, Node: rapid.SampledFrom(pool).Draw(t, "literal"), Func: rapid.SampledFrom([]string{"length", "equals", "run"}).Draw(t, "literalFunc")}
+}
+
 func wGen(t *rapid.T, o wOpts) mgen.Model {
+	if rapid.IntRange(0, 49).Draw(t, "noClasses") == 49 {
+		return mgen.Model{}
+	}
+	literals := rapid.IntRange(0, 5).Draw(t, "literals") == 5
+	names2 := rapid.IntRange(0, 9).Draw(t, "names2") // 6: non-ASCII, 7: case variants, '_', DOT keywords, 8: long, 9: very long
+	prefixTwin := rapid.IntRange(0, 5).Draw(t, "prefixTwin") == 5
 	maxClasses := 5
 	if rapid.IntRange(0, 9).Draw(t, "manyClasses") == 9 {
 		maxClasses = 8
@@ -88,6 +131,27 @@ func wGen(t *rapid.T, o wOpts) mgen.Model {
 				pkg, name = p, cand
 			}
 		}
+		if names2 == 6 && rapid.IntRange(0, 2).Draw(t, "nonASCIIClass") == 2 {
+			name = name + "\u00e9"
+		}
+		if names2 == 8 && rapid.IntRange(0, 2).Draw(t, "longClass") == 2 {
+			name = name + strings.Repeat("L", 300)
+		}
+		if names2 == 7 && len(m.Classes) > 0 && rapid.IntRange(0, 2).Draw(t, "caseTwin") == 2 {
+			// the name of an earlier class in lower case, in its package
+			other := m.Classes[rapid.IntRange(0, len(m.Classes)-1).Draw(t, "caseTwinOf")]
+			if cand := strings.ToLower(other.Name); !seen[other.Pkg+"."+cand] {
+				pkg, name = other.Pkg, cand
+			}
+		}
+		if prefixTwin && len(m.Classes) > 0 && rapid.Bool().Draw(t, "prefixTwinHere") {
+			// an earlier class's name with something appended, in its package
+			other := m.Classes[rapid.IntRange(0, len(m.Classes)-1).Draw(t, "prefixTwinOf")]
+			cand := other.Name + rapid.SampledFrom([]string{"0", "x", "$1", "_"}).Draw(t, "prefixTwinTail")
+			if !seen[other.Pkg+"."+cand] {
+				pkg, name = other.Pkg, cand
+			}
+		}
 		if seen[pkg+"."+name] {
 			continue
 		}
@@ -96,6 +160,15 @@ func wGen(t *rapid.T, o wOpts) mgen.Model {
 		if moreKinds {
 			// what the front end writes for interfaces (default methods have calls), anonymous and inner classes
 			c.Type = rapid.SampledFrom(wClassTypes).Draw(t, "classType")
+			if len(m.Classes) > 0 && rapid.IntRange(0, 2).Draw(t, "supertype") == 2 {
+				// data the call relation does not depend on
+				super := m.Classes[rapid.IntRange(0, len(m.Classes)-1).Draw(t, "supertypeOf")].Full()
+				if rapid.Bool().Draw(t, "implements") {
+					c.Implements = []string{super}
+				} else {
+					c.Extend = super
+				}
+			}
 		}
 		nm := rapid.IntRange(minMethods, 4).Draw(t, "nMethods")
 		used := map[string]bool{}
@@ -109,6 +182,16 @@ func wGen(t *rapid.T, o wOpts) mgen.Model {
 			}
 			if quotes && rapid.IntRange(0, 5).Draw(t, "q") == 5 {
 				mn = mn + "\"x"
+			}
+			switch {
+			case names2 == 6 && rapid.Bool().Draw(t, "nonASCIIName"):
+				mn = rapid.SampledFrom(wNonASCIIMethods).Draw(t, "nonASCIIMethod")
+			case names2 == 7 && rapid.Bool().Draw(t, "oddName"):
+				mn = rapid.SampledFrom(wOddMethods).Draw(t, "oddMethod")
+			case names2 == 8 && rapid.IntRange(0, 2).Draw(t, "longName") == 2:
+				mn = mn + strings.Repeat("l", 300)
+			case names2 == 9 && rapid.IntRange(0, 3).Draw(t, "veryLongName") == 3:
+				mn = mn + strings.Repeat("v", 5000)
 			}
 			if used[mn] && !overloads {
 				continue
@@ -144,15 +227,70 @@ func wGen(t *rapid.T, o wOpts) mgen.Model {
 		return m.Classes[r.ci].Methods[r.mi].Name
 	}
 
+	// extras adds, each behind its own draw, one method with very many calls and one very long callee
+	// name. expandable: the number of leading refs that form the tree of shape 3 (0 otherwise); the
+	// added calls never make a method outside that tree expandable and never close a cycle in the
+	// acyclic shapes.
+	extras := func(expandable int) {
+		if len(refs) == 0 {
+			return
+		}
+		if rapid.IntRange(0, 11).Draw(t, "wide") == 11 {
+			at := 0
+			if expandable > 0 {
+				at = rapid.IntRange(0, expandable-1).Draw(t, "wideAt")
+			} else {
+				at = rapid.IntRange(0, len(refs)-1).Draw(t, "wideAt")
+			}
+			mm := &m.Classes[refs[at].ci].Methods[refs[at].mi]
+			n := rapid.SampledFrom([]int{10, 17, 33, 40, 65}).Draw(t, "wideCalls")
+			distinct := rapid.Bool().Draw(t, "wideDistinct")
+			for i := 0; i < n; i++ {
+				call := mgen.Call{Pkg: "x", Node: "Ext", Func: "run"}
+				if distinct {
+					call.Func = fmt.Sprintf("r%d", i)
+				}
+				if expandable == 0 && rapid.IntRange(0, 3).Draw(t, "wideDeclared") == 3 {
+					lo := 0
+					if shape == 2 {
+						lo = at + 1
+					}
+					if lo < len(refs) {
+						call = callTo(refs[rapid.IntRange(lo, len(refs)-1).Draw(t, "wideTarget")])
+					}
+				}
+				mm.Calls = append(mm.Calls, call)
+			}
+		}
+		if rapid.IntRange(0, 79).Draw(t, "hugeName") == 79 {
+			// one external callee whose name alone is longer than 64 KiB
+			hi := len(refs) - 1
+			if expandable > 0 {
+				hi = expandable - 1
+			}
+			r := refs[rapid.IntRange(0, hi).Draw(t, "hugeAt")]
+			mm := &m.Classes[r.ci].Methods[r.mi]
+			mm.Calls = append(mm.Calls, mgen.Call{Pkg: "x", Node: "Ext" + strings.Repeat("H", 70000), Func: "run"})
+		}
+	}
+
 	if shape == 3 && len(refs) >= 5 {
 		// a tree over the first K methods; every node also calls a leaf so that it is expandable
 		k := rapid.SampledFrom([]int{7, 8, 5, 6, 9, 7, 8}).Draw(t, "treeNodes") // the budget is 7
+		if rapid.IntRange(0, 7).Draw(t, "bigTree") == 7 {
+			k = rapid.SampledFrom([]int{12, 16, 24}).Draw(t, "bigTreeNodes")
+		}
 		if k > len(refs) {
 			k = len(refs)
 		}
+		// a chain: as deep as it has expandable methods
+		chain := rapid.IntRange(0, 4).Draw(t, "chain") == 4
 		for i := 0; i < k; i++ {
 			if i > 0 {
-				p := refs[rapid.IntRange(0, i-1).Draw(t, "parent")]
+				p := refs[i-1]
+				if !chain {
+					p = refs[rapid.IntRange(0, i-1).Draw(t, "parent")]
+				}
 				pm := &m.Classes[p.ci].Methods[p.mi]
 				pm.Calls = append(pm.Calls, callTo(refs[i]))
 			}
@@ -177,7 +315,11 @@ func wGen(t *rapid.T, o wOpts) mgen.Model {
 			} else {
 				mm.Calls = append(mm.Calls, leaf)
 			}
+			if literals && rapid.IntRange(0, 2).Draw(t, "literalCall") == 2 {
+				mm.Calls = append(mm.Calls, wLiteralCall(t, m.Classes[r.ci].Pkg))
+			}
 		}
+		extras(k)
 		return m
 	}
 
@@ -200,6 +342,8 @@ func wGen(t *rapid.T, o wOpts) mgen.Model {
 				kind := rapid.IntRange(0, 19).Draw(t, "kind")
 				var call mgen.Call
 				switch {
+				case literals && rapid.IntRange(0, 2).Draw(t, "literalCall") == 2: // a call on a string literal
+					call = wLiteralCall(t, m.Classes[ci].Pkg)
 				case kind < 13 && len(refs) > 0: // declared method (possibly itself)
 					r := rapid.SampledFrom(refs).Draw(t, "target")
 					if shape == 2 {
@@ -229,6 +373,9 @@ func wGen(t *rapid.T, o wOpts) mgen.Model {
 					}
 				case kind < 18: // empty receiver
 					call = mgen.Call{Pkg: "", Node: "", Func: "orphan"}
+					if moreKinds && rapid.Bool().Draw(t, "orphanWithPkg") {
+						call.Pkg = m.Classes[ci].Pkg
+					}
 				default: // constructor form
 					tc := rapid.SampledFrom(m.Classes).Draw(t, "tclass")
 					call = mgen.Call{Pkg: tc.Pkg, Node: tc.Name, Func: ""}
@@ -240,6 +387,7 @@ func wGen(t *rapid.T, o wOpts) mgen.Model {
 			}
 		}
 	}
+	extras(0)
 	return m
 }
 
@@ -289,11 +437,16 @@ func wMutate(t *rapid.T, m mgen.Model) mgen.Model {
 
 // toCoca converts a model and fills in, as a fixed function of the position in the model, the
 // fields a parsed project carries and the call relation does not depend on: positions (every call
-// site has its own), modifiers, @Override, return and parameter types.
+// site has its own), modifiers, @Override, return and parameter types, call arguments (some with
+// texts that look like edge statements), imports and fields.
 func toCoca(m mgen.Model) []core_domain.CodeDataStruct {
 	out := m.ToCoca()
 	for i := range out {
 		line := 3
+		if i%2 == 1 {
+			out[i].Imports = []core_domain.CodeImport{{Source: "java.util.List"}, {Source: "x.Ext"}}
+			out[i].Fields = []core_domain.CodeField{{TypeType: "Ext", TypeValue: "ext", Modifiers: []string{"private"}}}
+		}
 		for j := range out[i].Functions {
 			f := &out[i].Functions[j]
 			f.Position = core_domain.CodePosition{StartLine: line, StartLinePosition: 4, StopLine: line + len(f.FunctionCalls) + 1, StopLinePosition: 5}
@@ -313,6 +466,12 @@ func toCoca(m mgen.Model) []core_domain.CodeDataStruct {
 			}
 			for k := range f.FunctionCalls {
 				f.FunctionCalls[k].Position = core_domain.CodePosition{StartLine: line + 1 + k, StartLinePosition: 8 + k, StopLine: line + 1 + k, StopLinePosition: 30}
+				switch (i + j + k) % 3 {
+				case 1: // argument texts are no part of any name
+					f.FunctionCalls[k].Parameters = []core_domain.CodeProperty{{TypeValue: "\"a -> b\""}, {TypeValue: "n"}}
+				case 2:
+					f.FunctionCalls[k].Parameters = []core_domain.CodeProperty{{TypeValue: "x -> \"y\";"}}
+				}
 			}
 			line += len(f.FunctionCalls) + 3
 		}
